@@ -119,9 +119,9 @@ impl<'a> PGen<'a> {
         }
     }
     fn stmt(&mut self, vars: &mut Vec<String>, depth: u32, fidx: usize, in_loop: bool) {
-        let k = if depth == 0 { self.rng.below(3) } else { self.rng.below(12) };
+        let k = if depth == 0 { self.rng.below(3) } else { self.rng.below(15) };
         // now and then a whole compound statement (with the loops inside it) sits on one line
-        let squeeze = k >= 3 && self.rng.chance(1, 5);
+        let squeeze = k >= 3 && k < 12 && self.rng.chance(1, 5);
         if squeeze {
             self.one_line += 1;
         }
@@ -218,13 +218,72 @@ impl<'a> PGen<'a> {
                 let w = if self.rng.chance(1, 2) { "break" } else { "continue" };
                 self.emit(&format!("if ({}) {};", c, w));
             }
+            12 | 13 | 14 => {
+                let l = self.circuit_line(vars);
+                self.flush();
+                // the next statements may still land on the same line
+                self.cur = l;
+            }
             _ => {
                 let s = self.simple(vars, fidx);
                 self.emit(&s);
             }
         }
     }
+
+    /// One source line that holds a complete circuit with two paths through it (loop whose body
+    /// has an if/else, nested loops, a switch in a loop, the same through a macro), followed by
+    /// one more statement on the same line: the multi-block line rule and the cycle search of
+    /// `get_line_count` (`look_for_circuit`/`unblock`) decide its count.
+    fn circuit_line(&mut self, vars: &[String]) -> String {
+        self.uniq += 1;
+        let u = self.uniq;
+        let x = self.atom(vars);
+        let y = self.atom(vars);
+        let k = self.rng.below(5);
+        match self.rng.below(8) {
+            0 => format!(
+                "{{ unsigned v{u} = (unsigned)({x} * 7 + {y} + {k}) & 63u; int p{u} = 0, q{u} = 0; do {{ if (v{u} & 1u) p{u}++; else q{u}++; v{u} >>= 1; }} while (v{u}); r = (r + p{u} * 3 + q{u}) % 1000; }} g++;",
+                u = u, x = x, y = y, k = k
+            ),
+            1 => format!(
+                "{{ unsigned v{u} = (unsigned)({x} * 5 + {y} + {k}) & 31u; int p{u} = 0, q{u} = 0; CNT(v{u}, p{u}, q{u}); r = (r + p{u} + 2 * q{u}) % 1000; }} g++;",
+                u = u, x = x, y = y, k = k
+            ),
+            2 => format!(
+                "for (int i{u} = 0; i{u} < ({x} % 5) + 2; i{u}++) {{ if ((i{u} + {y}) & 1) r = (r + 2) % 1000; else g++; }} r = (r + 1) % 1000;",
+                u = u, x = x, y = y
+            ),
+            3 => format!(
+                "{{ int w{u} = ({x} % 4) + 3; while (w{u}-- > 0) {{ if ((w{u} + {y}) % 3 == 0) continue; if (w{u} & 1) g++; else r = (r + w{u}) % 1000; }} }} g++;",
+                u = u, x = x, y = y
+            ),
+            4 => format!(
+                "for (int i{u} = 0; i{u} < ({x} % 3) + 2; i{u}++) for (int j{u} = 0; j{u} < ({y} % 3) + 1; j{u}++) {{ if ((i{u} ^ j{u}) & 1) r = (r + 1) % 1000; else g++; }} g++;",
+                u = u, x = x, y = y
+            ),
+            5 => format!(
+                "for (int i{u} = 0; i{u} < ({x} % 4) + 3; i{u}++) {{ switch ((i{u} + {y}) % 3) {{ case 0: r = (r + 1) % 1000; break; case 1: g++; default: r = (r + 2) % 1000; }} }} g++;",
+                u = u, x = x, y = y
+            ),
+            6 => format!(
+                "{{ int d{u} = 0; do {{ if ((d{u} + {x}) & 1) {{ g++; if (d{u} > 1) break; }} else r = (r + d{u}) % 1000; }} while (++d{u} < ({y} % 4) + 2); }} r = (r + 1) % 1000;",
+                u = u, x = x, y = y
+            ),
+            _ => format!(
+                "for (int i{u} = 0; i{u} < ({x} % 3) + 2; i{u}++) {{ int w{u} = i{u} + 1; while (w{u}-- > 0) {{ if ((w{u} + {y}) & 1) g++; else r = (r + 1) % 1000; }} }} g++;",
+                u = u, x = x, y = y
+            ),
+        }
+    }
 }
+
+/// a multi-statement macro invoked on one line
+const CNT_MACRO: &str = "#define CNT(v, p, q) do { if ((v) & 1u) (p)++; else (q)++; (v) >>= 1; } while (v)";
+
+/// every one-line circuit shape in one fixed program (compiled and compared first on every run)
+const CIRCUIT_PROG: &str = "#include <stdlib.h>\nint g;\n#define CNT(v, p, q) do { if ((v) & 1u) (p)++; else (q)++; (v) >>= 1; } while (v)\nint f0(int a, int b) {\n  int r = 0;\n  { unsigned v = (unsigned)(a * 7 + b + 3) & 63u; int p = 0, q = 0; do { if (v & 1u) p++; else q++; v >>= 1; } while (v); r = (r + p * 3 + q) % 1000; } g++;\n  { unsigned v = (unsigned)(a * 5 + b) & 31u; int p = 0, q = 0; CNT(v, p, q); r = (r + p + 2 * q) % 1000; } g++;\n  for (int i = 0; i < (a % 5) + 2; i++) { if ((i + b) & 1) r = (r + 2) % 1000; else g++; } r = (r + 1) % 1000;\n  { int w = (a % 4) + 3; while (w-- > 0) { if ((w + b) % 3 == 0) continue; if (w & 1) g++; else r = (r + w) % 1000; } } g++;\n  return r;\n}\nint f1(int a, int b) {\n  int r = 0;\n  for (int i = 0; i < (a % 3) + 2; i++) for (int j = 0; j < (b % 3) + 1; j++) { if ((i ^ j) & 1) r = (r + 1) % 1000; else g++; } g++;\n  for (int i = 0; i < (a % 4) + 3; i++) { switch ((i + b) % 3) { case 0: r = (r + 1) % 1000; break; case 1: g++; default: r = (r + 2) % 1000; } } g++;\n  { int d = 0; do { if ((d + a) & 1) { g++; if (d > 1) break; } else r = (r + d) % 1000; } while (++d < (b % 4) + 2); } r = (r + 1) % 1000;\n  for (int i = 0; i < (a % 3) + 2; i++) { int w = i + 1; while (w-- > 0) { if ((w + b) & 1) g++; else r = (r + 1) % 1000; } } g++;\n  return r;\n}\nint main(int argc, char **argv) {\n  int a = argc > 1 ? atoi(argv[1]) : 0; int b = argc > 2 ? atoi(argv[2]) : 0;\n  int r = f0(a, b); if (a != 4) r += f1(b, a); for (int i = 0; i < 3; i++) { if ((i + a) & 1) r += f0(i, b) & 1; else g++; } g++;\n  return (r + g) & 1;\n}\n";
+
 
 struct Program {
     main_c: String,
@@ -236,6 +295,7 @@ fn gen_program(rng: &mut Rng) -> Program {
     let mut g = PGen { rng, lines: vec![], cur: String::new(), nfun, uniq: 0, calls_helper: true, one_line: 0 };
     g.nl("#include <stdlib.h>");
     g.nl("int g;");
+    g.nl(CNT_MACRO);
     g.nl("#include \"inc.h\"");
     for f in 0..g.nfun {
         if g.rng.chance(1, 2) {
@@ -257,6 +317,9 @@ fn gen_program(rng: &mut Rng) -> Program {
         }
         if whole {
             g.one_line -= 1;
+        }
+        if g.rng.chance(2, 3) {
+            g.stmt_k(12, &mut vars, depth, f, false);
         }
         g.flush();
         if g.rng.chance(1, 3) {
@@ -287,6 +350,9 @@ fn gen_program(rng: &mut Rng) -> Program {
     let n = g.rng.range(2, 4);
     for _ in 0..n {
         g.stmt(&mut vars, 2, nf, false);
+    }
+    if g.rng.chance(1, 2) {
+        g.stmt_k(12, &mut vars, 2, nf, false);
     }
     g.flush();
     g.nl("  return (r + g) & 1;");
@@ -484,6 +550,49 @@ fn matches_entry_zero(
     any
 }
 
+/// distribution of the lines whose counts were compared with llvm-cov: how many needed the
+/// multi-block rule, how many of those hold a circuit, an executed circuit, two executed paths
+fn count_line_shapes(
+    rep: &mut Report,
+    stream: &str,
+    ours: &BTreeMap<String, GcovFile>,
+    theirs: &BTreeMap<String, GcovFile>,
+    fns: &[FnDump],
+) {
+    for (k, o) in ours {
+        let Some(t) = theirs.get(k) else { continue };
+        for (l, n) in &o.lines {
+            let Some(tn) = t.lines.get(l) else { continue };
+            rep.count(&format!("{}.lines.compared", stream));
+            let mut sh = LineShape::default();
+            for f in fns.iter().filter(|f| &f.file == k) {
+                let s = f.line_shape(*l);
+                if s.blocks >= 2 {
+                    sh.blocks = sh.blocks.max(s.blocks);
+                    sh.cycle |= s.cycle;
+                    sh.executed_cycle |= s.executed_cycle;
+                    sh.two_paths |= s.two_paths;
+                }
+            }
+            if sh.blocks >= 2 {
+                rep.count(&format!("{}.lines.multi_block", stream));
+                if sh.cycle {
+                    rep.count(&format!("{}.lines.multi_block_with_cycle", stream));
+                }
+                if sh.executed_cycle {
+                    rep.count(&format!("{}.lines.multi_block_with_executed_cycle", stream));
+                }
+                if sh.two_paths {
+                    rep.count(&format!("{}.lines.multi_block_cycle_two_executed_paths", stream));
+                    if tn == n {
+                        rep.count(&format!("{}.lines.multi_block_cycle_two_executed_paths.equal_to_llvm_cov", stream));
+                    }
+                }
+            }
+        }
+    }
+}
+
 fn classify(
     ours: &BTreeMap<String, GcovFile>,
     theirs: &BTreeMap<String, GcovFile>,
@@ -638,14 +747,29 @@ fn compiled_stream(rep: &mut Report, rng: &mut Rng, reqs: &mut Vec<String>, pend
             check_compiled(rep, &c, &case, reqs, pend, false);
         }
     }
-    let n = rep.budget(10, 40);
+    {
+        let p = Program { main_c: CIRCUIT_PROG.to_string(), inc_h: "/* unused */\n".to_string() };
+        let profiles: Vec<Vec<String>> = [["5", "2"], ["0", "7"], ["4", "9"], ["13", "6"]]
+            .iter()
+            .map(|v| v.iter().map(|s| s.to_string()).collect())
+            .collect();
+        let case = json!({"op": "program", "prog_c": p.main_c, "inc_h": p.inc_h, "profiles": profiles, "showcase": true});
+        match build_and_run(&rep.workdir.join("circuits"), &p, &profiles) {
+            Ok(c) => {
+                rep.count("program.circuit_showcase");
+                check_compiled(rep, &c, &case, reqs, pend, false);
+            }
+            Err(e) => rep.notes.push(format!("circuit showcase program not run: {}", e)),
+        }
+    }
+    let n = rep.budget(30, 14);
     for i in 0..n {
         let p = gen_program(rng);
         let nprof = rng.below(5) as usize;
         let profiles: Vec<Vec<String>> = (0..nprof)
             .map(|_| {
                 let k = rng.below(3);
-                (0..k).map(|_| format!("{}", rng.below(10))).collect()
+                (0..k).map(|_| format!("{}", rng.below(16))).collect()
             })
             .collect();
         let dir = rep.workdir.join(format!("p{}", i));
@@ -693,10 +817,13 @@ fn check_compiled(
                     rep.count_n("program.instrumented_lines", f.lines.len() as u64);
                     rep.count_n("program.functions", f.funcs.len() as u64);
                 }
+                let fns = run_dump(&c.gcno, ds).map(|d| dump_functions(&d)).unwrap_or_default();
+                if *what == "per-run gcda files" {
+                    count_line_shapes(rep, "program", &ours, &c.gcov, &fns);
+                }
                 if let Some(d) = diff_gcov(&ours, &c.gcov) {
                     let mut cj = case.clone();
                     cj["variant"] = json!(what);
-                    let fns = run_dump(&c.gcno, ds).map(|d| dump_functions(&d)).unwrap_or_default();
                     let finding = classify(&ours, &c.gcov, &fns);
                     if let Some(f) = finding {
                         rep.count(&format!("program.finding.{}", f));
@@ -918,7 +1045,7 @@ fn llvm_cov_on_bytes(dir: &Path, gcno: &[u8], gcda: &[u8]) -> Option<BTreeMap<St
 /// consistent flows (shapes clang would not produce: irreducible loops, parallel arcs, lines
 /// repeated inside a block, lines shared by distant blocks)
 fn synthetic_llvm_cov_stream(rep: &mut Report, rng: &mut Rng) {
-    let n = rep.budget(60, 25);
+    let n = rep.budget(200, 8);
     let dir = rep.workdir.join("syn");
     for i in 0..n {
         let _ = std::fs::remove_dir_all(&dir);
@@ -929,7 +1056,15 @@ fn synthetic_llvm_cov_stream(rep: &mut Report, rng: &mut Rng) {
         let checksum = rng.next() as u32;
         let nf = rng.range(1, 2) as u32;
         let mut fns: Vec<GenFn> = Vec::new();
+        let loopy = rng.chance(1, 2);
         while fns.len() < nf as usize {
+            if loopy {
+                // loops with two-path bodies, all on 1-3 lines
+                let nl = rng.range(1, 3) as u32;
+                fns.push(gen_loop_fn(rng, fns.len() as u32, nl, b"syn.c"));
+                rep.count("synthetic_llvm_cov.loop_functions");
+                continue;
+            }
             let small = rng.chance(1, 3);
             let mut f = gen_fn(rng, version, fns.len() as u32, small);
             if !f.tree_ok {
@@ -952,6 +1087,26 @@ fn synthetic_llvm_cov_stream(rep: &mut Report, rng: &mut Rng) {
                     }
                 }
                 *items = keep;
+            }
+            // half of the functions squeeze their blocks onto 1-3 source lines: lines that live
+            // in many blocks, with the circuits of the random back arcs between them
+            if rng.chance(1, 2) {
+                let k = rng.range(1, 3) as u32;
+                let st = f.start;
+                for (_, items) in f.lines.iter_mut() {
+                    for it in items.iter_mut() {
+                        if let LineItem::Line(l) = it {
+                            *l = st + 1 + (*l - st) % k;
+                        }
+                    }
+                }
+                // and every body block gets a line
+                let listed: Vec<u32> = f.lines.iter().map(|(b, _)| *b).collect();
+                for b in 2..f.nblocks {
+                    if !listed.contains(&b) {
+                        f.lines.push((b, vec![LineItem::File(b"syn.c".to_vec()), LineItem::Line(st + 1 + b % k)]));
+                    }
+                }
             }
             // like LLVM: the function's own line is listed on its first block
             let first = f.arcs[0].1;
@@ -985,8 +1140,8 @@ fn synthetic_llvm_cov_stream(rep: &mut Report, rng: &mut Rng) {
         let gcno = encode_gcno(&notes);
         let mut parts: Vec<(&GenFn, Vec<u64>)> = Vec::new();
         for f in fns.iter() {
-            let walks = if rng.chance(1, 6) { 0 } else { rng.range(1, 6) };
-            parts.push((f, gen_flow(rng, f, walks, 1)));
+            let walks = if rng.chance(1, 8) { 0 } else { rng.range(2, 9) };
+            parts.push((f, gen_flow_n(rng, f, walks, 1, if loopy { 40 } else { 12 })));
         }
         let gcda = gcda_for(version, checksum, &parts);
         let mut er = rng.fork();
@@ -1004,8 +1159,9 @@ fn synthetic_llvm_cov_stream(rep: &mut Report, rng: &mut Rng) {
         match run_compute(&gcno, &[gbytes.clone()], true) {
             Ok(rs) => {
                 let ours = of_results(&rs);
+                let fd = run_dump(&gcno, &[gbytes.clone()]).map(|d| dump_functions(&d)).unwrap_or_default();
+                count_line_shapes(rep, "synthetic_llvm_cov", &ours, &theirs, &fd);
                 if let Some(d) = diff_gcov(&ours, &theirs) {
-                    let fd = run_dump(&gcno, &[gbytes.clone()]).map(|d| dump_functions(&d)).unwrap_or_default();
                     let finding = classify(&ours, &theirs, &fd);
                     rep.fail("oracle", finding, format!("Gcno::compute differs from llvm-cov gcov on generated notes: {}", d), case);
                 }
